@@ -63,6 +63,20 @@ TERMINATOR_BYTES = {
 }
 
 
+def _le32(v):
+    return bytes([v & 0xFF, (v >> 8) & 0xFF, (v >> 16) & 0xFF, (v >> 24) & 0xFF])
+
+
+ARM64_BYTES = {
+    "jmp": _le32(0x14000000), "jcc": _le32(0x54000001), "call": _le32(0x94000000), "ret": _le32(0xD65F03C0),
+    "ijmp": _le32(0xD61F0020), "icall": _le32(0xD63F0020), "sys": _le32(0xD4000001),
+}
+
+
+def arm64_ordinary(ident):
+    return _le32(0x91000000 | ((ident & 0xFFF) << 10))  # add x0, x0, #ident
+
+
 class Atom:
     def __init__(self, ident, kind, target, length, blk, idx, code):
         self.id = ident
@@ -77,6 +91,10 @@ class Atom:
 
     def rope(self):
         return Rope.src(self.src, self.length)
+
+
+def spec_isa(sc):
+    return sc.spec.get("isa", "x64")
 
 
 class Scenario:
@@ -100,6 +118,8 @@ class Scenario:
         name = "len%d" % ident
         if not code:
             return e.int(name, 1, None)
+        if self.spec.get("isa") == "arm64":
+            return 4  # fixed-width ISA: every instruction is four bytes
         if kind == "o":
             return e.int(name, 1, 15)
         opts = TERMINATOR_LENGTHS[kind]
@@ -172,6 +192,8 @@ class Scenario:
                     else:
                         if not code:
                             data = bytes([(0x40 + ident * 7 + k) & 0xFF for k in range(ln)])
+                        elif spec.get("isa") == "arm64":
+                            data = arm64_ordinary(ident) if kind == "o" else ARM64_BYTES[kind]
                         elif kind == "o":
                             data = ordinary_bytes(ln, ident)
                         else:
@@ -224,7 +246,12 @@ class Scenario:
             bi = blk.byte_interval
             boff = 0
             for a in atoms:
-                if a.target is not None:
+                if a.target is not None and spec.get("isa") == "arm64":
+                    # the operand of a fixed-width instruction is recorded at the instruction's first byte
+                    expr = gtirb.SymAddrConst(0, self.symbols[a.target])
+                    bi.symbolic_expressions[blk.offset + boff] = expr
+                    a.annots.append((0, "symexpr", expr, None))
+                elif a.target is not None:
                     width = 1 if (a.kind in ("jmp", "jcc") and not self.sym and a.length == 2) else 4
                     if self.sym:
                         delta = a.length - core.Ite(And(a.length == 2), 1, 4)
@@ -391,7 +418,28 @@ class Scenario:
             "string": '.string "h%d"' % (mi % 10),
             "alias_data": "jmp .Lskip\nt1_%d:\nt2_%d:\n.byte %d\n.Lskip:\nmov eax, %d" % (mi, mi, k & 0xFF, k),
         }
-        if name.startswith("jmp:"):
+        if spec_isa(self) == "arm64":
+            a64 = {
+                "mov": "mov x9, #%d" % k,
+                "two": "mov x9, #%d\nmov x10, #%d" % (k, k),
+                "label": "mov x9, #%d\npl_%d:\nmov x10, #%d" % (k, mi, k),
+                "jcc_tmp": "cmp x9, #0\nb.ne .Lskip\nmov x9, #%d\n.Lskip:\nnop" % k,
+                "ret": "mov x9, #%d\nret" % k,
+                "icall": "mov x9, #%d\nblr x9" % k,
+                "selfloop": ".Lx:\nmov x9, #%d\nb.ne .Lx" % k,
+                "trail_label": "mov x9, #%d\ntl_%d:" % (k, mi),
+            }
+            for shared in ("byte", "quad", "decline", "trail_label_data", "string"):
+                a64[shared] = texts[shared]
+            if name.startswith("jmp:"):
+                text = "mov x9, #%d\nb %s" % (k, name[4:])
+            elif name.startswith("call:"):
+                text = "mov x9, #%d\nbl %s\nmov x10, #%d" % (k, name[5:], k)
+            elif name.startswith("dq:"):
+                text = ".quad %s+4\n.byte %d" % (name[3:], k & 0xFF)
+            else:
+                text = a64[name]
+        elif name.startswith("jmp:"):
             text = "mov eax, %d\njmp %s" % (k, name[4:])
         elif name.startswith("call:"):
             text = "mov eax, %d\ncall %s\nmov ebx, %d" % (k, name[5:], k)
